@@ -8,8 +8,12 @@
       `gen_since_timed_updateObj` (values and exceptions).
   (b) the whole monitor: `StRel`, `F.onSupported`, `HistOK`, `HistOKRun`; `genOn_init`, `genOn_step`, `genOn_run`
       (success direction: whenever the mirror returns lists, the translated classes return the same lists, given enough
-      fuel).
-  (c) `C05_translated_partial`.
+      fuel).  The interface-aware predicate `.bin (.predSat c)` (robustness semantics) is the translated subclass
+      `IAPredicateOperation` (`RtamtProofs/GenDenseOnIA.lean`: `GOnIA.IAPredRel`, `gen_iapred_construct`,
+      `gen_iapredop_updateObj`); for the operator `!=` the online `sat()` reads the verdict as `not (d == 0)` where the mirror
+      has `abs(d) > 0`, hence the hypothesis `hne : φ.usesSatNe = true → GOnIA.SatNeLaw α`.  `.predZero` stays excluded.
+  (c) `C05_translated_partial`, `C06_translated_online_partial` (`HistOK` along the run is discharged for both fragments,
+      `GOn.histOKRun_frag`; `SatNeLaw` follows from `hcmp` of C06).
 
   Helper lemmas live in `Rtamt.Py.DnOn.GOn`.
 -/
